@@ -119,6 +119,17 @@ theorem storage_ref (s : State) (path : String) (ty : Ty) :
     split <;> rfl
   · simp only [deref, h]
 
+/-- the model exhibits the known finding `nested-non-resource-reference-not-invalidated` (it mirrors
+`InvalidateReferencedResources`, which skips non-resource values): heap `hs` = struct cell 0 held in the
+field `s` of resource cell 1; after the resource is moved (`bumpVal`), a reference to the struct taken
+before (generation 0) is still valid, while a reference to the resource itself is not. -/
+theorem nested_struct_reference_witness :
+    let hs : Heap :=
+      [⟨.comp "S" [("x", .int .int 1)], .nom "S", false, 0, true⟩,
+       ⟨.comp "R2" [("s", .ptr 0)], .res "R2", true, 0, true⟩]
+    refValid (bumpVal 18 hs (.ptr 1)) (.ptr 0) 0 = true ∧ refValid (bumpVal 18 hs (.ptr 1)) (.ptr 1) 0 = false := by
+  decide
+
 /-! ### non-vacuity: resource 1 holds resource 0 in its `inner` field; moving 1 invalidates a reference to 0 -/
 
 def h0 : Heap :=
